@@ -62,6 +62,27 @@ CLAIMS = {
              "tables restricted to the documented reductions, and decides that load_ack() reaches W_ACK_PAYLOAD exactly for len in [1,32] and pipe in "
              "[0,5] and otherwise leaves the radio untouched. On-air interoperation is declined.",
         ref="DESIGN.md section 5 C20"),
+    "C06": dict(
+        technique="path-condition analysis of FrameQueueFrag.enqueue by abstract interpretation with a symbolic cache and fragment; re-analysis from completed states",
+        text="Decides necessary conditions of C06 for all fragment field values: bytes are spliced/delivered only on paths whose condition contains "
+             "equality of origin and frame id with the cache and the counter relation 'previous - 1' (LAST: the cached counter must decide); no "
+             "sentinel test that cannot fail; after a completed message no fragment can be spliced or delivered again (re-analysis from the completed "
+             "abstract state); cache and queue hold decoded copies; delivered type and byte order. One genuine defect is recorded as a known finding "
+             "(LAST fragment exempt from sequencing). Enumeration of delivery histories is a different family and is declined.",
+        ref="DESIGN.md section 5 C06"),
+    "C07": dict(
+        technique="interprocedural typestate by path-sensitive abstract interpretation with state merging; verified assume/guarantee summaries for send/resend/read, _write, _net_update, _begin; call-graph discovery of entry points",
+        text="Decides that every normal return of every public network/mesh entry point (discovered from the call graph of the four concrete classes) "
+             "leaves the abstract radio listening: PRIM_RX and PWR_UP set, CE high, EN_AA=0x3E, six pipes open, dynamic payloads on, RX_ADDR_P0 equal to "
+             "the remembered own pipe-0 address - over every combination of failed hop, fragment abort, NETWORK_ACK emit/wait/timeout, loop-back, "
+             "multicast and forwarding, because those are branches of the analysed code. Exits by exception are out of the statement.",
+        ref="DESIGN.md section 5 C07"),
+    "C12": dict(
+        technique="classification of every use of the queue storage + abstract interpretation of enqueue/dequeue/peek/move constructors on symbolic queues (capacity grid, path atoms, allocation identity)",
+        text="Decides FIFO discipline (who may append/pop/index the storage list, anywhere in the package), private copies (allocation identity and "
+             "provenance of the stored object), duplicate suppression atoms, the capacity guard on the exact max x len grid for order comparisons, "
+             "return value <=> stored, and order/capacity preservation of the move constructors and the fragmentation setter.",
+        ref="DESIGN.md section 5 C12"),
 }
 
 NOT_APPLICABLE_REASON = "check not built yet (build in progress, see DESIGN.md section 9)"
